@@ -170,6 +170,17 @@ def center_image(IM, method='com', odd_size=True, square=False, axes=(0, 1),
 
     centered_data = set_center(IM, origin=origin, crop=crop, axes=axes,
                                order=order, verbose=verbose)
+
+    rows, cols = centered_data.shape
+    if square and rows != cols:
+        # cropping changed the shape: trim the longer side around the center
+        size = min(rows, cols)
+        if odd_size and size % 2 == 0:
+            size -= 1
+        r0 = rows // 2 - size // 2
+        c0 = cols // 2 - size // 2
+        centered_data = centered_data[r0:r0 + size, c0:c0 + size]
+
     return centered_data
 
 
